@@ -24,6 +24,20 @@ def expected(reg):
     return struct.unpack('>h', tag_payload(reg, 1))[0]
 
 
+# callers asking for blocks of different length (their validators differ): a 1-, 2- and 4-register sensor
+MIX = ('vpv1', 'ppv1', 'meter_e_total_exp1', 'vpv2')
+
+
+def target(cfg, inv, i):
+    """-> (sensor id to read, first register, expected value)"""
+    if not cfg.get('mix'):
+        return f'modbus-{1000 + i}', 1000 + i, expected(1000 + i)
+    from .. import refdec
+    s = [x for x in inv.sensors() if x.id_ == MIX[i]][0]
+    n = refdec.size_of(s)
+    return s.id_, s.offset, refdec.decode(s, tag_payload(s.offset, (n + 1) // 2)[:n])
+
+
 def run_one(cfg, ctx, fp=True):
     world.reset()
     T, R, N = cfg['T'], cfg['R'], cfg['N']
@@ -52,23 +66,34 @@ def run_one(cfg, ctx, fp=True):
     t_start = loop.time()
     offs = [0.0] + [ctx.choose(f'start{i}', offsets(T)) for i in range(1, N)]
     res = {}
+    done = {}
+    tg = [target(cfg, inv, i) for i in range(N)]
 
     async def caller(i):
         if offs[i]:
             await asyncio.sleep(offs[i])
-        reg = 1000 + i
         try:
-            res[i] = ('ok', await inv.read_sensor(f'modbus-{reg}'))
+            res[i] = ('ok', await inv.read_sensor(tg[i][0]))
         except BaseException as e:  # noqa: BLE001
             res[i] = ('exc', type(e).__name__)
+        done[i] = loop.time()
 
     async def main():
         await asyncio.gather(*[caller(i) for i in range(N)])
     st, r = loop.run(main())
     loop.settle(0)
     ctx.fp = None
-    return dict(status=st, why=r if st == 'hang' else None, res=res, sent=list(peer.sent), offs=offs,
+    return dict(status=st, why=r if st == 'hang' else None, res=res, sent=list(peer.sent), offs=offs, done=done,
+                regs=[t[1] for t in tg], expect=[t[2] for t in tg], prior=bool(pri),
                 unhandled=[c.get('message', '') for c in loop.unhandled], t1=loop.time())
+
+
+def _same(a, b):
+    from .. import refdec
+    try:
+        return refdec.same(a, b)
+    except Exception:  # noqa: BLE001
+        return a == b
 
 
 def monitor(cfg, o):
@@ -98,11 +123,21 @@ def monitor(cfg, o):
                 out.append(('caller-completes', f'caller {i}'))
             continue
         if r[0] == 'ok':
-            if r[1] != expected(1000 + i):
-                who = [j for j in range(cfg['N']) if expected(1000 + j) == r[1]]
+            if not _same(r[1], o['expect'][i]):
+                who = [j for j in range(cfg['N']) if _same(o['expect'][j], r[1])]
                 out.append(('own-answer', f'caller {i} got the answer of caller {who}'))
         elif r[1] != 'RequestFailedException':
             out.append(('own-answer', f'caller {i} raised {r[1]}'))
+    # (c) a request whose first transmission is answered in time (one conforming frame, or two fragments) is accepted
+    # at once: no retransmission, own value (judged by C02 / C07; no earlier request that could have left anything)
+    if not o['prior'] and o['status'] != 'hang':
+        tcp = cfg['transport'] == 'tcp'
+        for i in range(cfg['N']):
+            mine = [(t, l) for t, _, d, l in o['sent'] if struct.unpack('>H', (d[8:10] if tcp else d[2:4]))[0] == o['regs'][i]]
+            r = o['res'].get(i)
+            if mine and mine[0][1] in ('valid', 'valid@.6T', 'frag2@.4T') and r is not None:
+                if len(mine) != 1 or r[0] != 'ok':
+                    out.append(('answered-at-once:' + mine[0][1], f'caller {i}: {len(mine)} transmissions, outcome {r[:2]}'))
     if any('Exception in callback' in m or 'Fatal' in m for m in o['unhandled']):
         out.append(('no-callback-exception', o['unhandled'][0]))
     return out
@@ -123,12 +158,14 @@ def job(j):
         return run_one(cfg, ctx)
 
     def on_exec(ctx, o):
-        oc = tuple(sorted((v[0], v[1] if v[0] == 'exc' else 'own' if v[1] == expected(1000 + k) else 'other')
+        oc = tuple(sorted((v[0], v[1] if v[0] == 'exc' else 'own' if _same(v[1], o['expect'][k]) else 'other')
                           for k, v in o['res'].items())) + (o['status'],)
         st.note(ctx, oc)
         if len(st.samples) < 1 and sum(1 for c in ctx.choices if c) >= 2:
             st.samples.append(describe(cfg, ctx, o))
         for clause, cause in monitor(cfg, o):
+            if clause.startswith('answered-at-once') and not cfg.get('judge_acceptance'):
+                continue
             vio.setdefault(clause, []).append((ctx.choices, cause))
     depth = (cfg['N'] - 1) + cfg['N'] * (cfg['R'] + 1) + 2
     if mode == 'product':
@@ -153,6 +190,26 @@ def job(j):
     return st
 
 
+def acceptance_stage(tier, seed, letters):
+    """Used by C02 ('valid', 'valid@.6T') and C07 ('frag2@.4T'): two or three callers asking for blocks of different
+    length on one object, start offsets x per-transmission letters exhaustively; a request answered in time by its
+    first transmission is accepted without retransmission whatever the other callers are doing."""
+    jobs = []
+    for tr in ('udp', 'tcp'):
+        for ka in (False, True):
+            for R in (0, 1):
+                jobs.append((dict(transport=tr, ka=ka, T=1, R=R, N=2, mix=True, judge_acceptance=True), 'product', None, ()))
+            jobs.append((dict(transport=tr, ka=ka, T=1, R=1, N=3, mix=True, judge_acceptance=True), 'deviations',
+                         4 if tier == 'thorough' else 3, ()))
+    total = Stats()
+    for st in pmap(job, jobs):
+        total.merge(st)
+    vio = [v for v in total.violations if v['clause'].startswith('answered-at-once') and v['clause'].split(':', 1)[1] in letters]
+    for v in vio:
+        v['replay'] = dict(part='overlap', **v['replay'])
+    return total.executions, vio
+
+
 def run(tier, seed, rep):
     jobs = []
     for tr in ('udp', 'tcp'):
@@ -169,6 +226,11 @@ def run(tier, seed, rep):
             else:
                 jobs.append((dict(transport=tr, ka=ka, T=1, R=1, N=3), 'deviations', 3, ()))
                 jobs.append((dict(transport=tr, ka=ka, T=1, R=2, N=2), 'deviations', 4, ()))
+    for tr in ('udp', 'tcp'):
+        for ka in (False, True):
+            for R in (0, 1):
+                jobs.append((dict(transport=tr, ka=ka, T=1, R=R, N=2, mix=True), 'product', None, ()))
+            jobs.append((dict(transport=tr, ka=ka, T=1, R=1, N=3, mix=True), 'deviations', 3, ()))
     for tr in ('udp', 'tcp'):
         for ka in (False, True):
             for prior in (('exhausted', 'rejected@.5T', 'fragments', 'garbage') if tier == 'thorough' else ('rejected@.5T', 'fragments')):
@@ -197,5 +259,6 @@ def run(tier, seed, rep):
 
 
 def replay(r):
+    r['cfg'].pop('part', None)
     o = run_one(r['cfg'], Ctx(r['choices']), fp=False)
     return dict(describe(r['cfg'], None, o), status=o['status'], violations=monitor(r['cfg'], o))
